@@ -130,9 +130,10 @@ func mkCase(init int, scratch bool, ops []Op) engine.Case {
 // Alphabet
 
 var (
-	lNone = []string(nil)
-	lOne  = []string{"l"}
-	lTwo  = []string{"l", "m"}
+	lNone  = []string(nil)
+	lOne   = []string{"l"}
+	lTwo   = []string{"l", "m"}
+	lSpace = []string{"x y"}
 )
 
 // alphabetThorough is the full alphabet, alphabetQuick its core subset (the
@@ -174,6 +175,8 @@ func buildAlphabets() (quick, thorough []Op) {
 		Op{K: "rmblk", I: 0}, Op{K: "rmblk", I: 1}, Op{K: "rmforeign"}, Op{K: "reappend"},
 		Op{K: "settype", I: 0, Ty: "blk"}, Op{K: "settype", I: 0, Ty: "other"},
 		Op{K: "setlabels", I: 0}, Op{K: "setlabels", I: 0, L: lOne}, Op{K: "setlabels", I: 0, L: lTwo},
+		// a label that is not an identifier
+		Op{K: "setlabels", I: 0, L: lSpace},
 		Op{K: "nl"}, Op{K: "unstruct"},
 		// token sharing: two attributes are given the same one-token Tokens
 		// value / the tokens of another attribute's expression; every
@@ -561,7 +564,7 @@ func main() {
 			"(state key = canonical form, up to address values and with all aliasing, of the private object graph of the real file + the caller's values + the complete model state + the model-to-real block binding; every transition is executed on fresh real objects and checked for panics and documented return values, every state not seen before gets the complete oracle) "+
 			"over a 21-operation sub-alphabet of node-replacing/detaching/appending operations to depth 5 (quick) / 7 (thorough) and over the core alphabet to depth 5 as far as the time allows (thorough); per-level frontier, transitions and new states are in merged_search_levels. Operations: "+
 			"(SetAttributeValue/Raw/Traversal, SetAttributeRaw with the tokens of another attribute's expression (same body / root body), RenameAttribute, RemoveAttribute, AppendNewBlock, AppendBlock of a new / pre-populated / previously removed block, RemoveBlock of block #i or of a foreign block, "+
-			"Block.SetType, Block.SetLabels, AppendNewline, AppendUnstructuredTokens; names a,b,c; values 1,true,\"s\",list; raw tokens x.y, 1+2, 7, null, \"q\"; labels [],[l],[l,m]; every Tokens value is made once per history and passed again to every operation with the same raw id, so attributes share *Token objects; "+
+			"Block.SetType, Block.SetLabels, AppendNewline, AppendUnstructuredTokens; names a,b,c; values 1,true,\"s\",list; raw tokens x.y, 1+2, 7, null, \"q\"; labels [],[l],[l,m],[x y]; every Tokens value is made once per history and passed again to every operation with the same raw id, so attributes share *Token objects; "+
 			"caller-side steps caller-overwrite(id) / caller-refill(id): element 0 of the caller's Tokens value id is overwritten with another token / the value is truncated and refilled with one other token, offered once that value has been handed to a SetAttributeRaw, a later SetAttributeRaw with the id passes the value as it is then) "+
 			"on the root body, the bodies of root blocks #0 and #1 and the first body nested in #0, from each of %d initial files (empty, generated via the API, parsed files with lead/line comments, blank lines, nested labelled block, one-line block, missing final newline, "+
 			"items with a #/'//' line comment directly followed by comment lines at three depths). "+
